@@ -252,3 +252,121 @@ pub fn reader_ownership(h: InstanceHandle, last: Time) -> InstanceOwnership {
 pub fn writer_instance(h: InstanceHandle, last: Option<Time>) -> RegisteredInstanceInfo {
     RegisteredInstanceInfo { instance_handle: h, last_write_time: last, samples: alloc::collections::VecDeque::new() }
 }
+
+// ---- waker stubs ------------------------------------------------------------------------------------
+// The only `Waker` these harnesses ever create is `Waker::noop()` (used by `try_recv` to poll the real mpsc
+// receiver); its vtable functions wake / wake_by_ref / drop do nothing. The channels and status conditions of
+// the participant live in heap-allocated entities whose contents are opaque to CBMC's constant propagation, so
+// every `if let Some(w) = waker.take() { w.wake() }` of MpscSender::send / NotificationSender::notify / their
+// Drop impls is explored with an unconstrained vtable pointer, i.e. as a call to EVERY address-taken function of
+// a compatible signature (measured: ~10 s of symbolic execution per call site, the drop glue of the capturing
+// transport among the candidates). These three stubs are exactly the behaviour of the noop waker:
+//   #[kani::stub(core::task::wake::Waker::wake, super::support_part2::waker_wake_stub)]
+//   #[kani::stub(core::task::wake::Waker::wake_by_ref, super::support_part2::waker_wake_by_ref_stub)]
+//   #[kani::stub(<core::task::wake::Waker as core::ops::Drop>::drop, super::support_part2::waker_drop_stub)]
+pub fn waker_wake_stub(w: Waker) {
+    core::mem::forget(w);
+}
+pub fn waker_wake_by_ref_stub(_w: &Waker) {}
+pub fn waker_drop_stub(_w: &mut Waker) {}
+
+// ---- recorder stubs (assume/guarantee cuts; each use is listed with `@assume stub:`) ------------------
+// Log of "observable effects" written by the recorder stubs below.
+pub struct EffectLog {
+    /// addresses of the MpscSender objects `send` was called on, in call order (first 4)
+    pub sends: [usize; 4],
+    pub n_sends: usize,
+    /// (address of the DcpsStatusCondition, status kind bit) of add_communication_state calls (first 4)
+    pub states: [(usize, u16); 4],
+    pub n_states: usize,
+}
+static EFFECTS: critical_section::Mutex<core::cell::RefCell<EffectLog>> =
+    critical_section::Mutex::new(core::cell::RefCell::new(EffectLog { sends: [0; 4], n_sends: 0, states: [(0, 0); 4], n_states: 0 }));
+
+/// Recorder for `MpscSender::<T>::send`: notes on WHICH sender object a mail was sent and forgets the mail.
+/// The real channel (every sent value is received exactly once, in order) is decided by C34.
+///   #[kani::stub(crate::dcps::channels::mpsc::MpscSender::send, super::support_part2::mpsc_send_recorder)]
+pub fn mpsc_send_recorder<T>(s: &MpscSender<T>, value: T) -> Result<(), crate::dcps::channels::mpsc::MpscSenderError> {
+    let addr = s as *const MpscSender<T> as usize;
+    critical_section::with(|cs| {
+        let mut l = EFFECTS.borrow(cs).borrow_mut();
+        let i = l.n_sends;
+        if i < 4 {
+            l.sends[i] = addr;
+        }
+        l.n_sends = i + 1;
+    });
+    core::mem::forget(value);
+    Ok(())
+}
+pub fn sender_addr<T>(s: &Option<MpscSender<T>>) -> usize {
+    match s {
+        Some(x) => x as *const MpscSender<T> as usize,
+        None => 0,
+    }
+}
+
+/// Recorder for `DcpsStatusCondition::add_communication_state`: notes which condition got which status.
+/// The real status condition (trigger value, waking of attached WaitSets) is decided by C32.
+///   #[kani::stub(crate::dcps::status_condition::DcpsStatusCondition::add_communication_state, super::support_part2::add_state_recorder)]
+pub fn add_state_recorder(sc: &mut DcpsStatusCondition, state: StatusKind) {
+    let addr = sc as *const DcpsStatusCondition as usize;
+    let bit = kind_bit(state);
+    critical_section::with(|cs| {
+        let mut l = EFFECTS.borrow(cs).borrow_mut();
+        let i = l.n_states;
+        if i < 4 {
+            l.states[i] = (addr, bit);
+        }
+        l.n_states = i + 1;
+    });
+}
+pub fn cond_addr(sc: &DcpsStatusCondition) -> usize {
+    sc as *const DcpsStatusCondition as usize
+}
+pub fn kind_bit(k: StatusKind) -> u16 {
+    match k {
+        StatusKind::InconsistentTopic => 1 << 0,
+        StatusKind::OfferedDeadlineMissed => 1 << 1,
+        StatusKind::RequestedDeadlineMissed => 1 << 2,
+        StatusKind::OfferedIncompatibleQos => 1 << 3,
+        StatusKind::RequestedIncompatibleQos => 1 << 4,
+        StatusKind::SampleLost => 1 << 5,
+        StatusKind::SampleRejected => 1 << 6,
+        StatusKind::DataOnReaders => 1 << 7,
+        StatusKind::DataAvailable => 1 << 8,
+        StatusKind::LivelinessLost => 1 << 9,
+        StatusKind::LivelinessChanged => 1 << 10,
+        StatusKind::PublicationMatched => 1 << 11,
+        StatusKind::SubscriptionMatched => 1 << 12,
+    }
+}
+pub fn n_sends() -> usize {
+    critical_section::with(|cs| EFFECTS.borrow(cs).borrow().n_sends)
+}
+pub fn send_at(i: usize) -> usize {
+    critical_section::with(|cs| EFFECTS.borrow(cs).borrow().sends[i])
+}
+pub fn n_states() -> usize {
+    critical_section::with(|cs| EFFECTS.borrow(cs).borrow().n_states)
+}
+pub fn state_at(i: usize) -> (usize, u16) {
+    critical_section::with(|cs| EFFECTS.borrow(cs).borrow().states[i])
+}
+
+/// `alloc::raw_vec::min_non_zero_cap` (first step of amortized Vec/VecDeque growth): faithful copy for every
+/// element size except `ListenerMail`'s, for which growth of the 64-slot listener queue is asserted
+/// unreachable (a checked obligation, not an assumption; at most a handful of mails are queued per harness).
+///   #[kani::stub(alloc::raw_vec::min_non_zero_cap, super::support_part2::min_non_zero_cap_mailq)]
+pub fn min_non_zero_cap_mailq(size: usize) -> usize {
+    if size == core::mem::size_of::<ListenerMail>() {
+        panic!("VERIF: the 64-slot listener mail queue grew")
+    }
+    if size == 1 {
+        8
+    } else if size <= 1024 {
+        4
+    } else {
+        1
+    }
+}
